@@ -158,7 +158,7 @@ class GRSession(SessionBase):
         d = self.d
         qd = np.asarray(self.qd)
         om = {}
-        for o in range(0, self.K + 1):
+        for o in sorted(self.ch):
             if o == 0:
                 om[o] = np.identity(d)
                 continue
